@@ -110,6 +110,72 @@ def rule_a(ctx: Context, R: Reporter):
     R.analysed["C07.a:field_obligations"] = n_field_obl
 
 
+# ------------------------------------------------------------------ C07.h
+def rule_h(ctx: Context, R: Reporter):
+    """Whole-array rebinding of the record held by an object: a block that
+    re-binds one of `self.u / self.x / self.logl / self.blobs` (outside the
+    constructor) re-binds all of them -- the blobs possibly under a `blobs is not
+    None` / have-blobs guard in the same block.  (Row-wise updates are C07.a.)"""
+    n = 0
+    n_cls = 0
+    for cls in ctx.prog.classes.values():
+        init = cls.methods.get("__init__")
+        if init is None:
+            continue
+        held = set()
+        for x in walk_no_nested(init.node):
+            if isinstance(x, ast.Assign):
+                for t in x.targets:
+                    if isinstance(t, ast.Attribute) and isinstance(t.value, ast.Name) and t.value.id == "self" and t.attr in PARTICLE_FIELDS:
+                        held.add(t.attr)
+        if not {"u", "x", "logl"} <= held:
+            continue
+        n_cls += 1
+        need = {"u", "x", "logl"} | ({"blobs"} if "blobs" in held else set())
+        for m in ctx.prog.functions.values():
+            if m.cls is None or not (m.cls is cls or ctx.prog.is_subclass(m.cls, cls)) or m.name == "__init__":
+                continue
+
+            def rebinds(stmts, deep):
+                out = {}
+                for st in stmts:
+                    if isinstance(st, ast.Assign):
+                        for t in st.targets:
+                            ts = t.elts if isinstance(t, (ast.Tuple, ast.List)) else [t]
+                            for t1 in ts:
+                                if isinstance(t1, ast.Attribute) and isinstance(t1.value, ast.Name) and t1.value.id == "self" and t1.attr in need:
+                                    out.setdefault(t1.attr, st)
+                    elif deep and isinstance(st, ast.If) and "blobs" in norm_text(st.test):
+                        for k, v in rebinds(st.body, False).items():
+                            out.setdefault(k, v)
+                return out
+
+            def blocks(node):
+                for x in walk_no_nested(node):
+                    for fld in ("body", "orelse", "finalbody"):
+                        b = getattr(x, fld, None)
+                        if isinstance(b, list) and b and isinstance(b[0], ast.stmt):
+                            yield b
+                    if isinstance(x, ast.Try):
+                        for h in x.handlers:
+                            yield h.body
+
+            for b in blocks(m.node):
+                rb = rebinds(b, True)
+                if not rb:
+                    continue
+                n += 1
+                missing = sorted(need - set(rb))
+                first = next(iter(rb.values()))
+                R.check("C07.h", f"{m.short}: a block re-binding part of the held record re-binds all of it", not missing, m, first,
+                        msg=f"{m.short}: `{unparse(first)[:60]}` (and {sorted(rb)}) replace the held arrays wholesale but {missing} keep their old rows: every particle of the "
+                            f"object pairs new coordinates / likelihoods with the stale {missing}", key=f"rebind:{m.short}:{','.join(sorted(rb))}")
+    R.floor("C07.h", "classes holding a particle record", n_cls, 1)
+    R.analysed["C07.h:rebinding_blocks"] = n
+    if n == 0:
+        R.check("C07.h", "no whole-array rebinding of a held record outside constructors", True, None, None, key="rebind-none", loc="tempest/")
+
+
 # ------------------------------------------------------------------ C07.b
 def kernel_base(ctx: Context) -> ClassInfo:
     for c in ctx.prog.classes.values():
@@ -576,6 +642,7 @@ def run(ctx: Context, R: Reporter):
     R.guard(rule_e, ctx, R)
     R.guard(rule_f, ctx, R)
     R.guard(rule_g, ctx, R)
+    R.guard(rule_h, ctx, R)
 
 
 def variants():
